@@ -131,7 +131,9 @@ func c13newMux() *api.Mux {
 	mux.SetLogger(loggers.NewNullLogger())
 	r := c13send(mux, "POST", "scenario", c13scenario, "application/toml")
 	if r.panicked || r.status != http.StatusOK {
-		panic(fmt.Sprintf("scenario fixture not accepted: %d %s %s", r.status, r.body, r.what))
+		c13oracle("the scenario fixture (testdata/ValidTestScenario.toml) is not accepted by POST /scenario: the engine cannot be configured",
+			J{"status": r.status, "response": r.body, "panic": r.what, "class": "scenario_fixture"})
+		return nil
 	}
 	return mux
 }
@@ -559,6 +561,10 @@ func runC13(args []string) {
 	// ---- 2. end to end ----
 	c13setup()
 	probe := c13newMux()
+	if probe == nil {
+		emit(J{"kind": "stat", "stats": c13stats})
+		return
+	}
 	ref := probe.VerifC13Model()
 	nActions := len(ref.ManagementActions())
 	c13stats["scenario_actions"] = nActions
